@@ -13,7 +13,7 @@ from ufl import (
 )
 from ufl.classes import (
     Coargument, Cofunction, ComplexValue, FloatValue, Form, Identity, Integral, IntValue, Label,
-    MultiIndex, PermutationSymbol, Zero,
+    MultiIndex, PermutationSymbol, Variable, Zero,
 )
 from ufl.core.multiindex import FixedIndex, Index
 from ufl.functionspace import DualSpace
@@ -107,13 +107,21 @@ def tables():
                                   "ufl_index_dimensions": const((2,), (3,))},
                            lambda v: Zero(v["ufl_shape"], v["ufl_free_indices"], v["ufl_index_dimensions"]))
     T["IntValue"] = ClassTable(IntValue, {"_value": const(150, 151, 3, -3, 10 ** 20)}, lambda v: IntValue(v["_value"]))
-    T["FloatValue"] = ClassTable(FloatValue, {"_value": const(2.5, 3.5, 1e-9, 0.1, 0.30000000000000004, 0.3)},
+    import sys
+    T["FloatValue"] = ClassTable(FloatValue, {"_value": const(2.5, 3.5, 1e-9, 0.1, 0.30000000000000004, 0.3, 1.1 * 1.1,
+                                                              2 ** 0.5 * 1e10, sys.float_info.max, 5e-324, 1 / 3,
+                                                              -2.675, 1e22, 123456789.12345679)},
                                  lambda v: FloatValue(v["_value"]))
     T["ComplexValue"] = ClassTable(ComplexValue, {"_value": const(1 + 2j, 1 + 3j, 2j)},
                                    lambda v: ComplexValue(v["_value"]))
     T["Identity"] = ClassTable(Identity, {"_dim": const(2, 3)}, lambda v: Identity(v["_dim"]))
     T["PermutationSymbol"] = ClassTable(PermutationSymbol, {"_dim": const(2, 3)},
                                         lambda v: PermutationSymbol(v["_dim"]))
+    T["Variable"] = ClassTable(
+        Variable, {"ufl_operands[0]": integrand_thunks() + [lambda: Coefficient(space_thunks()[3](), 9205),
+                                                           lambda: ufl.as_ufl(2.5)],
+                   "ufl_operands[1]": [lambda: Label(9531), lambda: Label(9532)]},
+        lambda v: Variable(v["ufl_operands[0]"], v["ufl_operands[1]"]))
     T["Label"] = ClassTable(Label, {"_count": const(9501, 9502)}, lambda v: Label(v["_count"]))
     T["Index"] = ClassTable(Index, {"_count": const(9511, 9512)}, lambda v: Index(v["_count"]))
     T["FixedIndex"] = ClassTable(FixedIndex, {"_value": const(0, 1, 7)}, lambda v: FixedIndex(v["_value"]))
@@ -404,7 +412,8 @@ class ExprGen:
         self.V, self.W = V, W
         self.scal = [Coefficient(V, 9711), Coefficient(V, 9712), Constant(m, (), 9713), Argument(V, 0),
                      Argument(V, 1), ufl.CellVolume(m), ufl.as_ufl(2), ufl.as_ufl(2.5), ufl.as_ufl(151),
-                     ufl.as_ufl(1 + 2j), Coefficient(FunctionSpace(m, FE(triangle, 1), label="boundary"), 9711)]
+                     ufl.as_ufl(1 + 2j), Coefficient(FunctionSpace(m, FE(triangle, 1), label="boundary"), 9711),
+                     ufl.as_ufl(0.1 + 0.2), ufl.as_ufl(1.1 * 1.1), ufl.as_ufl(1 / 3)]
         self.vec = [Coefficient(W, 9721), Coefficient(W, 9722), Constant(m, (2,), 9723), Argument(W, 0),
                     ufl.SpatialCoordinate(m), ufl.FacetNormal(m)]
         self.idx = [Index(9731), Index(9732), Index(9733)]
@@ -591,3 +600,42 @@ def weak_hash_verdict(a, b):
         for n, h in saved:
             n._hash = h
     return v, v2, same
+
+
+HASH_MOD = 2 ** 61 - 1      # CPython: hash(n) == n % (2**61 - 1) for non-negative ints
+
+
+def hash_collision_pairs(gen):
+    """Pairs of structurally DIFFERENT expressions with EQUAL hash, obtained without touching any cache:
+    they differ only in the count of an Index, and hash(n) == hash(n + 2**61 - 1), so the tuple hashes
+    of Index / MultiIndex / every operator above collide.  They pass the hash cut-off of expr_equals, so
+    the verdict (and everything the comparison does to its operands) comes from the stack loop."""
+    w, w2, s = gen.vec[0], gen.vec[1], gen.scal[0]
+    g = gen.scal[1]
+    templates = [
+        ("w[i]", lambda i, j: w[i]),
+        ("as_vector(w[i]*s, i)", lambda i, j: ufl.as_vector(w[i] * s, i)),
+        ("w[i]*w2[i]", lambda i, j: w[i] * w2[i]),
+        ("s*(w[i]*w2[i]) + g", lambda i, j: s * (w[i] * w2[i]) + g),
+        ("sin(w[i]*w2[i])*g", lambda i, j: ufl.sin(w[i] * w2[i]) * g),
+        ("outer[i,j]", lambda i, j: ufl.as_tensor(w[i] * w2[j], (i, j))),
+        ("grad(w)[i,j]*grad(w2)[i,j]", lambda i, j: ufl.grad(w)[i, j] * ufl.grad(w2)[i, j]),
+        ("conditional", lambda i, j: ufl.conditional(ufl.lt(w[i] * w2[i], g), s, g) * ufl.exp(w[j] * w[j])),
+    ]
+    out = []
+    for k, (name, t) in enumerate(templates):
+        n, m = 9751 + 2 * k, 9752 + 2 * k
+        try:
+            a = t(Index(n), Index(m))
+            b = t(Index(n + HASH_MOD), Index(m))          # differs in the first index only
+            c = t(Index(n), Index(m + HASH_MOD))          # differs in the second index only
+        except Exception:    # noqa: BLE001
+            continue
+        for tag, x, y in (("first index", a, b), ("second index", a, c), ("both", b, c)):
+            try:
+                if hash(x) == hash(y) and not struct_eq(x, y):
+                    out.append(({"kind": "hash-collision", "template": name, "differs": tag,
+                                 "how": "Index counts n and n + 2**61-1 have equal hash"}, x, y))
+            except Exception:    # noqa: BLE001
+                continue
+    return out
